@@ -411,7 +411,9 @@ Unfrozen(S, op, ord) ==
     [] op.name = "remove_nodes_from" -> {RemoveNodesFrom(S, op.ns, op.b1, op.b2)}
     [] op.name = "set_node_attributes" -> {SetNodeAttributes(S, op.fmt, op.k, op.v, op.kv, op.kd)}
     [] op.name = "set_edge_attributes" -> {SetEdgeAttributes(S, op.fmt, op.k, op.v, op.kv, op.kd)}
-    [] op.name = "add_edge" -> {AddEdge(S, op.m, op.id, AttrOf(op.a), ord)}
+    [] op.name = "add_edge" -> {AddEdge(S, op.m, op.id, AttrOf(op.a), ord)} \cup
+          \* a present explicit id and a None member may be detected in either order
+          (IF op.id # None /\ op.id \in EdgeSet(S) /\ None \in Range(op.m) THEN {LibErr(S)} ELSE {})
     [] op.name = "add_edges_from" -> AddEdgesFrom(S, op.fmt, op.items, AttrOf(op.a), ord)
     [] op.name = "add_weighted_edges_from" -> AddWeightedEdgesFrom(S, op.items, op.k, AttrOf(op.a), ord)
     [] op.name = "remove_edge" -> {RemoveEdge(S, op.e)}
